@@ -869,6 +869,7 @@ def main(tier, replay=None):
         'the model treats signal/broadcast as part of the atomic section although support.c may signal after the unlock; a later signal can only delay a wake-up',
         'ASSUMED by the ring theorems, only tested: the result a worker leaves in a task (state, read_size, is_timestamp_different, block, file, buffer content) depends only on (disk, position) and the files, not on what the ring slot held before (io_reader_sched / io_writer_sched reset every field per scheduling) -- tested by the scrub scenario with touched/modified files and silent errors at distances 1..10 on the same disk, across depths 1,3,4,5,8,128',
         'ASSUMED, only tested: the per-stripe computation of sync.c/scrub.c is independent of the order in which io_data_read returns the disks (rehandle[], failed[] are indexed by disk, the failed list is sorted) -- tested by the pending-rehash scenario under yield seeds and a slowed disk (LD_PRELOAD pread delay), content files compared and a following check required clean',
+        'ASSUMED, only tested (no Coq model of scrub.c state_scrub_process here; the ring model stops at handing tasks to the caller): the classification of the block of disk j in a stripe (file error vs silent data error, bad mark) depends only on disk j own file/block state, not on the other disks of the stripe nor on their arrival order -- tested by the cross-disk scrub scenario (touched file and silent error on different disks of one stripe, both disk orders), compared across depths 1/3/8/128, yield seeds, one slowed disk at a time, and against the expected classification and bad marks',
         'write faults: which iteration sees a writer error depends on the schedule (DESIGN C08/C13), not exercised here',
         'io_refresh_thread (progress display only) and the mono-thread variants (io_max = 1, trivially sequential) are not in the model; io_max = 1 is covered by the differential runs']
     return chk.finish()
